@@ -442,6 +442,28 @@ elif what.startswith("seedonly:"):
         b = get_wannier(at, psirs[0], Nit=3, random_guess=True, seed=5)
         out["differs"] = not np.array_equal(np.asarray(a), np.asarray(b))
 
+elif what == "large_arrays":
+    # arrays above the size at which a BLAS library threads its level-1 kernels (10000 elements for OpenBLAS): ethane, ecut = 10 (27000 grid points,
+    # 1503 x 7 coefficients), a few pccg steps (every scalar of the minimiser goes through utils.dotprod)
+    import dataclasses
+
+    from eminus import SCF, Atoms
+    from eminus.utils import dotprod
+
+    rng = np.random.default_rng(0)
+    a_ = rng.standard_normal((1503, 7)) + 1j * rng.standard_normal((1503, 7))
+    b_ = rng.standard_normal((1503, 7)) + 1j * rng.standard_normal((1503, 7))
+    out["bits:dotprod"] = float(dotprod(a_, b_)).hex()
+    pos = [[0, 0, 1.45], [0, 0, -1.45], [1.93, 0, 2.19], [-0.96, 1.67, 2.19], [-0.96, -1.67, 2.19], [-1.93, 0, -2.19], [0.96, 1.67, -2.19], [0.96, -1.67, -2.19]]
+    at = Atoms("C2H6", pos, ecut=10, a=10, center=True)
+    scf = SCF(at, opt={"pccg": 4}, etol=1e-14, verbose="critical")
+    scf.run()
+    W = np.concatenate([np.asarray(w).ravel() for w in scf.W])
+    out["bits:orbitals"] = hashlib.sha1(np.ascontiguousarray(W).tobytes()).hexdigest()  # noqa: S324
+    out["str:sizes"] = f"Ns={at.Ns} coefficients={W.size}"
+    for fl in dataclasses.fields(scf.energies):
+        out[f"bits:E.{fl.name}"] = float(getattr(scf.energies, fl.name)).hex()
+
 elif what == "wannier_callers":
     # the public callers of get_wannier with every value of their switches, twice on the same SCF object (several occupied states, cubic Gamma-only cell)
     import inspect
